@@ -91,6 +91,9 @@ def fresh_process_state():
 # ---------------------------------------------------------------- workload
 
 
+GRAPH_TAGS = []  # adjacency masks of the uniformly drawn small graphs
+
+
 def gen_history(ch):
     """1-3 project sessions in one process, sharing a pool of names."""
     pool = NAME_POOLS[ch.draw(len(NAME_POOLS), "names")]
@@ -130,6 +133,7 @@ def gen_project(ch, pool):
     elif shape == 0 and n <= 5:
         # uniform over all digraphs on n nodes, self loops included
         mask = ch.draw(1 << (n * n), "adjmask")
+        GRAPH_TAGS.append(f"graphs_on_{n}_targets:{mask}")
         for i in range(n):
             for j in range(n):
                 if mask >> (i * n + j) & 1:
@@ -393,6 +397,7 @@ def run_history(descs, ctx):
 
 def run_one(ch, render=False):
     mode = ch.weighted([1, 1, 6], "setmode")
+    del GRAPH_TAGS[:]
     desc = gen_history(ch)
     ctx = SimSetContext(ch, mode)
     outcomes, viol, probes = run_history(desc, ctx)
@@ -412,6 +417,7 @@ def run_one(ch, render=False):
         "sim_us": 0,
         "steps": len(ctx.orders),
         "desc": desc,
+        "tags": list(GRAPH_TAGS),
     }
     if render:
         res["render"] = {
@@ -518,6 +524,7 @@ class Spec:
     shrink_wall_s = 60
     run_one = staticmethod(run_one)
     classify = staticmethod(classify)
+    small_graph_space = {1: 2, 2: 16, 3: 512, 4: 65536, 5: 33554432}
     rule = ("each run draws a project (1-7 targets; uniform over all digraphs "
             "incl. self loops for n<=5, or DAG by density, or DAG plus back "
             "edges), 1-3 run() calls with requests/duplicates/default target, "
@@ -525,7 +532,9 @@ class Spec:
             "optional failing task, and the iteration order of every set of "
             "target names; distinct = distinct (graph, calls, drawn set "
             "orders); non-trivial = some requested closure has an edge "
-            "(order matters) or a reachable cycle")
+            "(order matters) or a reachable cycle; coverage.distinct_by_tag "
+            "counts the distinct adjacency matrices drawn per size (spaces: "
+            "2, 16, 512, 65536, 2^25 for 1..5 targets)")
     assumptions = [
         "set iteration order is the only nondeterministic input of the "
         "runner; SimSet keeps every guarantee CPython gives (stable order "
